@@ -6,7 +6,9 @@
 (* "rt"   [id, classes, top, ev]  ev[i].k = "rt": a conforming instance j, *)
 (*        what structure_from_dict returned (dec), its re-encoding (out),  *)
 (*        an instance v built by the harness, its encoding (enc) and the   *)
-(*        decoding of that (v2), the serialiser's output (ser);            *)
+(*        decoding of that (v2), the serialiser's output (ser); dec2 = the *)
+(*        same decode repeated in the warm state (dec was the FIRST decode *)
+(*        of a fresh converter state when the harness says so);            *)
 (*        ev[i].k = "bad": a non-conforming j (Codec!Mutants) and what the *)
 (*        decoder did (res).                                               *)
 (* "ser"  [id, ev]  ev[i] = [g, res, json]: DataclassSerializer on an      *)
@@ -55,7 +57,14 @@ RtFails(cl, top, i, e) ==
         ELSE IF NullKeys(e.ser) > 0 THEN {Fail(i, "C16.serializer_null_key", [cyclic |-> FALSE])}
         ELSE LET d == Diff(cl, top, e.j, e.ser, TRUE)
              IN IF d = "ok" THEN {} ELSE {Fail(i, "C16.serializer_lossy", [what |-> d, shared |-> FALSE])}
-  IN decenc \cup encdec \cup ser
+      \* the same decode repeated in the then warm converter state must give what the first (fresh) one gave
+      again ==
+        IF "dec2" \in DOMAIN e /\ e.dec2 # e.dec
+        THEN {Fail(i, "C16.history_dependent",
+                   [op |-> "S", ty |-> top.k, now |-> (IF IsExc(e.dec2) THEN e.dec2.exc ELSE "value"),
+                    fresh |-> (IF IsExc(e.dec) THEN e.dec.exc ELSE "value")])}
+        ELSE {}
+  IN decenc \cup encdec \cup ser \cup again
 
 \* drift: the decoded value is not the reference decoder's value although the round trip may still be fine
 RtDrift(cl, top, e) == IF ~IsExc(e.dec) /\ e.dec # Decode(cl, top, e.j) THEN 1 ELSE 0
